@@ -104,7 +104,7 @@ pub fn run(world: &World) -> Verdict {
     let log: Rc<RefCell<Vec<(u64, bool)>>> = Rc::new(RefCell::new(Vec::new()));
     let finished = Rc::new(RefCell::new(false));
     {
-        let server = Server::new(SimListener { world: world.clone() }, OpaqueSvc { world: world.clone(), log: log.clone(), suspends });
+        let server = Server::new(SimListener::new(world.clone()), OpaqueSvc { world: world.clone(), log: log.clone(), suspends });
         let mut ex = Exec::new();
         let fin = finished.clone();
         ex.spawn(async move {
